@@ -172,6 +172,7 @@ CONSTANT EMIT = %s
 CONSTANT Kind = "%s"
 CONSTANT NIns = %d
 CONSTANT NPatch = "%s"
+CONSTANT StratMode = "%s"
 INVARIANT DiffsCorrect
 INVARIANT ChunkShapes
 INVARIANT NoErrorArm
@@ -183,23 +184,63 @@ INVARIANT Symmetric
 INVARIANT DisjointClean
 INVARIANT EmbeddedAllWF
 INVARIANT StrProvenanceModGlue
+INVARIANT UseSideResolved
+INVARIANT UseSideEquiv
+INVARIANT StrategyInert
+INVARIANT ClearAllClears
+INVARIANT UnionKeepsBoth
+INVARIANT TransientYields
 CONSTRAINT Emit
 CHECK_DEADLOCK FALSE
 """
 
 
-def merge_algo(chk, maxlen, emit, kind="lists", nins=3, npatch="all"):
+def nbdime_strategies(kind, st):
+    """the Strategies object that MergeAlgo's configuration st = [l, i, k, t] stands for"""
+    from nbdime.utils import Strategies
+    d = {}
+    if st["l"]:
+        d["/"] = st["l"]
+    if kind in ("lists", "strings"):
+        if st["i"]:
+            d["/*"] = st["i"]
+        tr = []
+    elif kind == "nested":
+        if st["i"]:
+            d["/*"] = st["i"]
+        if st["k"]:
+            d["/*/a"] = d["/*/b"] = st["k"]
+        tr = ["/*/" + k for k in st["t"]]
+    else:
+        if st["k"]:
+            d["/a"] = d["/b"] = st["k"]
+        tr = ["/" + k for k in st["t"]]
+    return Strategies(d, transients=tr), d, tr
+
+
+def merge_algo(chk, maxlen, emit, kind="lists", nins=3, npatch="all", strat="none"):
     """Design level: TLC checks the laws on the TLA+ transcription of the list merge (MergeAlgo.tla) for every
-    triple of the universe; with emit the transcription is compared with nbdime's decisions (model drift)."""
+    triple of the universe (strat != none: under every strategy configuration of StratU, with the C10 invariants);
+    with emit the transcription is compared with nbdime's decisions (model drift)."""
     import json
     from . import tlc
     from .encode import dec, enc, enc_diff
-    r = tlc.run("MergeAlgo", ALGO_CFG % (maxlen, "TRUE" if emit else "FALSE", kind, nins, npatch), workers=1 if emit else common.NCPU,
-                timeout=3000, name="MergeAlgo-%s-%d" % (kind, maxlen), xmx="8g")
+    mergedrv.quiet_logging()
+    tag = "%s-%d%s" % (kind, maxlen, "" if strat == "none" else "-strat-" + strat)
+    # PrintT lines are written atomically also with several workers (every line is checked to parse below)
+    r = tlc.run("MergeAlgo", ALGO_CFG % (maxlen, "TRUE" if emit else "FALSE", kind, nins, npatch, strat), workers=common.NCPU,
+                timeout=3000, name="MergeAlgo-" + tag, xmx="8g")
+    if emit:
+        try:
+            r.json_lines("MERGE")
+        except ValueError:      # a garbled line: print from a single worker
+            r = tlc.run("MergeAlgo", ALGO_CFG % (maxlen, "TRUE", kind, nins, npatch, strat), workers=1,
+                        timeout=3000, name="MergeAlgo-" + tag + "-w1", xmx="8g")
     if r.invariant_violated or r.error:
         raise tlc.TLCError("MergeAlgo: %s\n%s" % (r.error, "\n".join(l for l in r.out.splitlines() if not l.startswith('"'))[-2500:]))
-    chk.add_model(r, "MergeAlgo %s MaxLen=%d (%s)" % (kind, maxlen, "every pair of well-formed diffs of every base, NIns=%d NPatch=%s"
-                                                   % (nins, npatch) if kind in ("nested", "strings") else "all triples over 3 atoms"))
+    chk.add_model(r, "MergeAlgo %s MaxLen=%d (%s)%s" % (kind, maxlen, "every pair of well-formed diffs of every base, NIns=%d NPatch=%s"
+                                                   % (nins, npatch) if kind in ("nested", "strings") else "all triples over 3 atoms",
+                                                   "" if strat == "none" else " x strategy configurations '%s'" % strat))
     if not emit:
         return []
     from nbdime.merging.generic import decide_merge, decide_merge_with_diff
@@ -209,6 +250,8 @@ def merge_algo(chk, maxlen, emit, kind="lists", nins=3, npatch="all"):
     n = drift = 0
     first = None
     docs = {}
+    cases = []
+    classes = {}
 
     def lst(x):
         return x if isinstance(x, list) else []
@@ -216,28 +259,42 @@ def merge_algo(chk, maxlen, emit, kind="lists", nins=3, npatch="all"):
         b, l, rr = dec(m["base"]), dec(m["local"]), dec(m["remote"])
         n += 1
         docs.setdefault(json.dumps([b, l, rr], sort_keys=True), (b, l, rr))
+        st = m.get("st") or {"l": "", "i": "", "k": "", "t": []}
+        st["t"] = lst(st.get("t"))
+        plain = not (st["l"] or st["i"] or st["k"] or st["t"])
+        strategies, sd, tr = (None, {}, []) if plain else nbdime_strategies(kind, st)
+        if strat != "none":
+            cases.append((b, l, rr, st, sd, tr))
         try:
             if kind in ("nested", "strings"):
                 D = decide_merge_with_diff(b, l, rr, to_diffentry_dicts(dec_diff(lst(m["ld"]))),
-                                           to_diffentry_dicts(dec_diff(lst(m["rd"]))))
+                                           to_diffentry_dicts(dec_diff(lst(m["rd"]))), strategies)
             else:
-                D = decide_merge(b, l, rr)
+                D = decide_merge(b, l, rr, strategies)
             mm = apply_decisions(b, D)
             got = [{"path": enc_path(d.common_path), "action": d.action, "conflict": d.conflict,
                     "local_diff": enc_diff(d.local_diff or []), "local_null": d.local_diff is None,
-                    "remote_diff": enc_diff(d.remote_diff or [])} for d in D]
+                    "remote_diff": enc_diff(d.remote_diff or []),
+                    "custom_diff": enc_diff(d.get("custom_diff") or [])} for d in D]
             gm = enc(dict(mm) if kind == "objects" else mm if kind == "strings" else list(mm))
         except Exception as e:  # noqa
             got, gm = "raised %s: %s" % (type(e).__name__, str(e)[:80]), None
         exp = [{"path": lst(d["common_path"]), "action": d["action"], "conflict": d["conflict"],
                 "local_diff": lst(d["local_diff"]), "local_null": d["local_null"],
-                "remote_diff": lst(d["remote_diff"])}
+                "remote_diff": lst(d["remote_diff"]), "custom_diff": lst(d.get("custom_diff"))}
                for d in lst(m["D"])]
         if json.dumps(got, sort_keys=True) != json.dumps(exp, sort_keys=True) or gm != enc(dec(m["merged"])):
             drift += 1
-            first = first or {"base": b, "local": l, "remote": rr, "ld": m.get("ld"), "rd": m.get("rd"), "nbdime": got, "model": exp}
-    chk.notes.setdefault("MergeAlgo_vs_nbdime", {})["%s-%d" % (kind, maxlen)] = {"triples_compared": n, "model_drift": drift, "first_drift": first}
-    chk.count(("MergeAlgo", kind, maxlen), nontrivial=False, n=n)
+            cls = "%s: %s" % (",".join("%s=%s" % kv for kv in sorted(sd.items())) + (";T" if tr else ""),
+                              got[:40] if isinstance(got, str) else "decisions differ" if json.dumps(got, sort_keys=True) != json.dumps(exp, sort_keys=True) else "merged differs")
+            classes[cls] = classes.get(cls, 0) + 1
+            first = first or {"base": b, "local": l, "remote": rr, "ld": m.get("ld"), "rd": m.get("rd"), "strategies": sd,
+                              "transients": tr, "nbdime": got, "model": exp}
+    chk.notes.setdefault("MergeAlgo_vs_nbdime", {})[tag] = {"triples_compared": n, "model_drift": drift, "first_drift": first,
+                                                             "drift_classes": dict(sorted(classes.items(), key=lambda kv: -kv[1])[:12])}
+    chk.count(("MergeAlgo", kind, maxlen, strat), nontrivial=False, n=n)
+    if strat != "none":
+        return cases
     return list(docs.values())
 
 
